@@ -256,7 +256,10 @@ func VerifHarness_C04_NLPNeighbours() {
 	}}
 	db.BuildUniversalIndex()
 	db.buildTFIDFSearcher()
-	q := []string{"list files", "restart service", "list hidden files directory", "sorted files"}[verifIntRange("query", 0, 3)]
+	q := []string{"list files", "restart service", "list hidden files directory", "sorted files",
+		// queries that name an operating system or its shell: the platform in force is still the
+		// host's (or the requested one), whatever the words of the query say
+		"list files on windows", "list files in powershell", "restart service on mac", "restart a service macos", "windows directory"}[verifIntRange("query", 0, 8)]
 	o := c04Options()
 	o.UseNLP = true
 	o.Limit = []int{3, 10}[verifIntRange("limit", 0, 1)]
